@@ -862,6 +862,70 @@ macro_rules! rs_pack_small {
 rs_pack_small!(rs_pack_small_n1, 1);
 rs_pack_small!(rs_pack_small_n2, 2);
 
+// ---- C13: size of SmallReliable packets for THREE queued messages -------------------------------------------
+// Reads only `messages.len()` of each returned packet (concrete indices) and attributes the emitted messages
+// to packets in id order (order / identity / exactly-once are lemma rs_pack_small_*): every packet must
+// serialize to <= 1300 bytes for all lengths 0..=1200 and all varint width classes of ids and lengths.
+#[kani::proof]
+#[kani::unwind(7)]
+fn rs_size_small_n3() {
+    let now = any_time();
+    let channel_id: u8 = kani::any();
+    let mut ch = SendChannelReliable::new(channel_id, any_time(), MEMMAX);
+    let next = any_id();
+    ch.next_reliable_message_id = next;
+    let mut ids = [0u64; 3];
+    let mut lens = [0usize; 3];
+    let mut sum = 0usize;
+    let mut i = 0;
+    while i < 3 {
+        ids[i] = any_id();
+        kani::assume(ids[i] < next);
+        if i > 0 {
+            kani::assume(ids[i - 1] < ids[i]);
+        }
+        lens[i] = kani::any();
+        kani::assume(lens[i] <= SLICE_SIZE);
+        sum += lens[i];
+        ch.unacked_messages.slots[i] = Some((ids[i], UnackedMessage::Small { message: vbytes(lens[i], 100 + i as u32), last_sent: None }));
+        ch.unacked_messages.len = i + 1;
+        i += 1;
+    }
+    ch.memory_usage_bytes = sum;
+    let seq0 = any_id();
+    kani::assume(seq0 + 8 < IDMAX);
+    let mut seq = seq0;
+    let mut avail = u64::MAX;
+    let packets = ch.get_packets_to_send(&mut seq, &mut avail, now);
+    assert!(packets.len() <= 4);
+    let mut next_msg = 0usize;
+    let mut p = 0;
+    while p < 4 {
+        if p < packets.len() {
+            if let Packet::SmallReliable { messages, .. } = &packets[p] {
+                let cnt = messages.len();
+                assert!(next_msg + cnt <= 3, "more messages listed than queued");
+                let mut body = 0usize;
+                let mut k = 0;
+                while k < 3 {
+                    if k >= next_msg && k < next_msg + cnt {
+                        body += varint_len(ids[k]) + varint_len(lens[k] as u64) + lens[k];
+                    }
+                    k += 1;
+                }
+                next_msg += cnt;
+                assert!(1 + 8 + 1 + 2 + body <= 1300, "a SmallReliable packet can exceed NETCODE_MAX_PAYLOAD_BYTES (1300)");
+            }
+        }
+        p += 1;
+    }
+    assert!(next_msg == 3, "not every due message was listed");
+    kani::cover!(packets.len() == 2, "two packets");
+    kani::cover!(packets.len() == 3, "three packets");
+    std::mem::forget(packets);
+    std::mem::forget(ch);
+}
+
 // ---- get_packets_to_send, one sliced message ------------------------------------------------------
 // instance: number of slices N (2 or 3); message length symbolic in ((N-1)*1200, N*1200]
 macro_rules! rs_gps_sliced {
